@@ -1,12 +1,185 @@
-import S3V.Model.FsPath
+import S3V.Thm.FsPathPlan
+import S3V.Thm.FsPathInj
 /-!
 # C17 — the file-system backend never leaves its root nor crosses bucket boundaries (property theorems only)
+
+Model: `S3V/Model/FsPath.lean` (string-level mirror of `std::path`, path-dedot, path-absolutize and of the path
+functions and operations of s3s-fs, current tree = after e22160c). Vocabulary of the statements:
+`S3V/Spec/FsPathOwn.lean`. A location is the list of its path components (`components`); a location without
+`.`/`..` components (`NoDots`) denotes, under POSIX resolution without symbolic links, exactly the node reached by
+descending through its names — so "is a strict extension of `root/<bucket>`" on dot-free component lists *is*
+confinement.
+
+Quantifiers: all byte strings as bucket names, keys, copy sources, upload ids (no length bound, any bytes — `..`,
+absolute, empty and repeated separators included; percent-encoded spellings are ordinary bytes here because the
+adapter has decoded once, C12); every root that is absolute and free of `..` (`RootOk`; `FileSystem::new`
+canonicalises); every process CWD.
+
+Assumptions (hypotheses, not axioms): `EncNoSlash enc` / `NoDot (enc x)` / injectivity for
+`base64_simd::URL_SAFE_NO_PAD` (alphabet `A–Z a–z 0–9 - _`); a freshly drawn UUID prints without `/` (`OpOk`).
 -/
 namespace S3V.C17
 open S3V S3V.FsPath
 
-/-- placeholder until the path lemmas land: the refused-key witness of the corpus -/
-theorem C17_dotdot_key_refused :
-    getObjectPath ⟨[47, 119], [47, 114]⟩ [97] [46, 46, 47, 98] = .error .invalidArgument := by rfl
+/-- **Key confinement.** Whatever the bucket string and the key, if `get_object_path` returns a path at all, that
+    path is dot-free, lies *strictly* below the directory `root/<bn>` of the bucket's single component `bn`, and
+    consists below it of exactly the key's `Normal` components (at least one). -/
+theorem C17_object_path_confined (e : Env) (hr : RootOk e.root) (b k p : Bytes)
+    (h : getObjectPath e b k = .ok p) :
+    StrictlyInBucket e b (components p) ∧ NoDots (components p) := by
+  obtain ⟨bn, hbc, _, hall, hne, _, hpc, _⟩ := getObjectPath_shape e hr h
+  refine ⟨⟨bn, names (body k), hbc, ?_, ?_⟩, noDots_under hr hpc (obj_ext_allNormal hall)⟩
+  · intro h0
+    have := map_normal_names hall
+    rw [h0] at this
+    exact hne this.symm
+  · rw [hpc, map_normal_names hall]
+
+/-- the refusals of `get_object_path` are exactly: the bucket string is not one `Normal` component
+    (`InvalidBucketName`), or the key has a component other than `Normal`/leading `.` or no `Normal` component
+    (`InvalidArgument`); every other key is accepted (no key is lost to an internal error or a panic of
+    path-dedot) -/
+theorem C17_object_path_total (e : Env) (hr : RootOk e.root) (b k : Bytes) :
+    (∃ p, getObjectPath e b k = .ok p) ∨ getObjectPath e b k = .error .invalidBucketName ∨
+      getObjectPath e b k = .error .invalidArgument := by
+  cases hc : components b with
+  | nil => right; left; simp [getObjectPath, getBucketPath, hc]
+  | cons c cs =>
+    cases c with
+    | normal bn =>
+      cases cs with
+      | nil =>
+        cases hk : keyScan (components k) false with
+        | none =>
+          obtain ⟨dir, hdir⟩ := getBucketPath_total e hr hc
+          right; right; simp [getObjectPath, hdir, hk]
+        | some r =>
+          cases r with
+          | true => left; exact getObjectPath_total e hr hc hk
+          | false =>
+            obtain ⟨dir, hdir⟩ := getBucketPath_total e hr hc
+            right; right; simp [getObjectPath, hdir, hk]
+      | cons c2 cs2 => right; left; simp [getObjectPath, getBucketPath, hc]
+    | rootDir => right; left; simp [getObjectPath, getBucketPath, hc]
+    | curDir => right; left; simp [getObjectPath, getBucketPath, hc]
+    | parentDir => right; left; simp [getObjectPath, getBucketPath, hc]
+
+/-- **Bucket directories are children of the root.** If `get_bucket_path` returns a path, it is the root's child
+    named by the bucket string's single `Normal` component. -/
+theorem C17_bucket_path_is_child_of_root (e : Env) (hr : RootOk e.root) (b p : Bytes)
+    (h : getBucketPath e b = .ok p) :
+    ∃ bn, components b = [.normal bn] ∧ components p = components e.root ++ [.normal bn] ∧ NoDots (components p) := by
+  obtain ⟨bn, hbc, _, hpc, _⟩ := getBucketPath_shape e hr h
+  exact ⟨bn, hbc, hpc, noDots_under hr hpc (allNormal_map [bn])⟩
+
+/-- **Bookkeeping files are dot-named children of the root** — all five kinds: the path functions are total on
+    them (no error, no panic) and return `root/<name>` with `<name>` one component starting with `.`. -/
+theorem C17_bookkeeping_paths (e : Env) (hr : RootOk e.root) (enc : Bytes → Bytes) (he : EncNoSlash enc)
+    (b k : Bytes) (uo : Option Bytes) (u : Bytes) (hu : (47 : UInt8) ∉ u) (huo : ∀ x, uo = some x → (47 : UInt8) ∉ x)
+    (n : Int) (c : Nat) :
+    ∀ name ∈ [metadataName enc b k uo, internalInfoName enc b k, uploadInfoName u, uploadPartName u n, tmpName c],
+      name.head? = some 46 ∧
+      ∃ p, resolveAbsPath e name = .ok p ∧ components p = components e.root ++ [.normal name] := by
+  intro name hn
+  have key : Good name ∧ name.head? = some 46 := by
+    simp only [List.mem_cons, List.not_mem_nil, or_false] at hn
+    rcases hn with rfl | rfl | rfl | rfl | rfl
+    · exact good_metadataName he b k huo
+    · exact good_internalInfoName he b k
+    · exact good_uploadInfoName hu
+    · exact good_uploadPartName hu n
+    · exact good_tmpName c
+  obtain ⟨p, hp, hc, _⟩ := resolve_good e hr key.1
+  exact ⟨key.2, p, hp, hc⟩
+
+/-- **Buckets that can arrive over HTTP never collide with bookkeeping.** A bucket string whose first byte is a
+    lower-case letter or digit (a clause of `s3s::path::check_bucket_name`, which the adapter applies to every
+    request) resolves to a root child whose name does not start with `.`; bookkeeping names all do
+    (`C17_bookkeeping_paths`). Through the `S3` trait directly this does not hold: see
+    `S3V.Findings.C17.trait_bucket_can_name_a_bookkeeping_file`. -/
+theorem C17_bookkeeping_disjoint (e : Env) (hr : RootOk e.root) (b p : Bytes)
+    (hf : bucketNameFirstOk b = true) (h : getBucketPath e b = .ok p) :
+    ∀ name : Bytes, name.head? = some 46 → components p ≠ components e.root ++ [.normal name] := by
+  obtain ⟨bn, hbc, _, hpc, _⟩ := getBucketPath_shape e hr h
+  intro name hname heq
+  rw [hpc] at heq
+  have := List.append_cancel_left heq
+  simp only [List.cons.injEq, Comp.normal.injEq, and_true] at this
+  subst this
+  exact bucket_comp_head hf hbc hname
+
+/-- **Bookkeeping names identify their owner.** Two metadata / internal-info / upload-record / part / temporary
+    names coincide only if they are of the same kind and belong to the same (bucket, key[, upload]) resp.
+    (upload[, part]) resp. counter value — so "the operation's own bookkeeping files" are never another object's
+    or another upload's. -/
+theorem C17_bookkeeping_names_injective (enc : Bytes → Bytes) (hi : ∀ x y, enc x = enc y → x = y)
+    (hd : ∀ x, NoDot (enc x)) :
+    (∀ b k b' k' (u u' : Option Bytes), (∀ x, u = some x → NoDot x) → (∀ x, u' = some x → NoDot x) →
+        metadataName enc b k u = metadataName enc b' k' u' → b = b' ∧ k = k' ∧ u = u') ∧
+    (∀ b k b' k', internalInfoName enc b k = internalInfoName enc b' k' → b = b' ∧ k = k') ∧
+    (∀ u u', NoDot u → NoDot u' → uploadInfoName u = uploadInfoName u' → u = u') ∧
+    (∀ u u' (n n' : Int), NoDot u → NoDot u' → uploadPartName u n = uploadPartName u' n' → u = u' ∧ n = n') ∧
+    (∀ c c' : Nat, tmpName c = tmpName c' → c = c') ∧
+    (∀ b k uo b' k' u u' (n : Int) (c : Nat),
+        metadataName enc b k uo ≠ internalInfoName enc b' k' ∧
+        metadataName enc b k uo ≠ uploadInfoName u ∧ metadataName enc b k uo ≠ uploadPartName u n ∧
+        metadataName enc b k uo ≠ tmpName c ∧ internalInfoName enc b k ≠ uploadInfoName u ∧
+        internalInfoName enc b k ≠ uploadPartName u n ∧ internalInfoName enc b k ≠ tmpName c ∧
+        uploadInfoName u ≠ uploadPartName u' n ∧ uploadInfoName u ≠ tmpName c ∧ uploadPartName u n ≠ tmpName c) :=
+  ⟨fun _ _ _ _ _ _ hu hu' h => metadataName_inj hi hd hu hu' h,
+   fun _ _ _ _ h => internalInfoName_inj hi hd h,
+   fun _ _ hu hu' h => uploadInfoName_inj hu hu' h,
+   fun _ _ _ _ hu hu' h => uploadPartName_inj hu hu' h,
+   fun _ _ h => tmpName_inj h,
+   fun b k uo b' k' u u' n c => ⟨metadataName_ne_internalInfoName hd b k b' k' uo, kinds_disjoint enc b k uo u u' n c⟩⟩
+
+/-- **Every operation stays under the root.** For every operation and all inputs, every entry of the may-touch
+    table is anchored at a dot-free location, and every node it denotes has the root's components as a prefix. -/
+theorem C17_touched_under_root (e : Env) (enc : Bytes → Bytes) (hr : RootOk e.root) (he : EncNoSlash enc)
+    (op : Op) (hop : OpOk op) (t : Touch) (ht : t ∈ (plan e enc op).touches) :
+    TgtOk t.tgt ∧ ∀ q, covers e t.tgt q = true → components e.root <+: q := by
+  have hP := plan_allowed e enc hr he op hop t ht
+  refine ⟨hP.anchor, fun q hq => ?_⟩
+  rcases hP.allowed q hq with ⟨b, _, bn, _, hpre⟩ | ⟨b, _, ⟨bn, _, hpre⟩, _⟩ | ⟨name, _, _, rfl⟩ | ⟨_, _, rfl⟩ |
+    ⟨_, _, name, rfl⟩
+  · exact List.IsPrefix.trans (List.prefix_append _ _) hpre
+  · exact List.IsPrefix.trans (List.prefix_append _ _) hpre
+  · exact List.prefix_append _ _
+  · exact List.prefix_refl _
+  · exact List.prefix_append _ _
+
+/-- **Every operation stays in its own bucket(s) and its own bookkeeping.** For every operation and all inputs,
+    every node an entry of the may-touch table denotes is (see `Allowed`)
+    * in or below the directory of a bucket the operation is addressed to (the copy *source* bucket: read/list
+      only), or
+    * a root child whose name starts with `.` and is one of the operation's own bookkeeping names (`OwnName`:
+      metadata / internal info of its (bucket, key), record / parts / metadata of its upload id, its temporary
+      file), or
+    * the root directory itself, for listing only, by `list_buckets`, `list_parts`, `abort_multipart_upload`, or
+    * (only `list_buckets`) a root child, for reading its attributes. -/
+theorem C17_touched_in_own_bucket (e : Env) (enc : Bytes → Bytes) (hr : RootOk e.root) (he : EncNoSlash enc)
+    (op : Op) (hop : OpOk op) (t : Touch) (ht : t ∈ (plan e enc op).touches) (q : List Comp)
+    (hq : covers e t.tgt q = true) : Allowed e enc op t.acc q :=
+  (plan_allowed e enc hr he op hop t ht).allowed q hq
+
+/-! ## non-vacuity: realistic inputs meet the hypotheses and reach the main branches -/
+
+/-- root `/r`, CWD `/w` -/
+def exEnv : Env := ⟨[47, 119], [47, 114]⟩
+
+example : RootOk exEnv.root := ⟨rfl, by decide⟩
+/-- key `./a//b/` in bucket `bk` is accepted and resolves to `/r/bk/a/b` -/
+example : getObjectPath exEnv [98, 107] [46, 47, 97, 47, 47, 98, 47] = .ok [47, 114, 47, 98, 107, 47, 97, 47, 98] := by
+  rfl
+/-- key `../x`, key `/x`, key `.` and bucket `a/b` are refused -/
+example : getObjectPath exEnv [98, 107] [46, 46, 47, 120] = .error .invalidArgument := by rfl
+example : getObjectPath exEnv [98, 107] [47, 120] = .error .invalidArgument := by rfl
+example : getObjectPath exEnv [98, 107] [46] = .error .invalidArgument := by rfl
+example : getObjectPath exEnv [97, 47, 98] [120] = .error .invalidBucketName := by rfl
+/-- the tables are not empty: `copy_object bk/a/b → bk/c` has 8 entries and no input error, `get_object` has 3 -/
+example : ((plan exEnv id (.copyObject false [98, 107] [97, 47, 98] [98, 107] [99])).touches.length,
+    (plan exEnv id (.copyObject false [98, 107] [97, 47, 98] [98, 107] [99])).err) = (8, none) := by rfl
+example : (plan exEnv id (.getObject [98, 107] [97, 47, 98])).touches.length = 3 := by rfl
+example : bucketNameFirstOk [98, 107] = true := by decide
 
 end S3V.C17
